@@ -13,6 +13,9 @@ package planner
 // planner package may assign into it.
 //@ immutable-outside QueryPlanStep @props C14
 //@ immutable-outside QueryPlan @props C14
+// C14 (c): lock discipline on the two cache maps
+//@ guarded CachedPlanner.cache by RWMutex @props C14
+//@ guarded CachedPlanner.cacheTimers by RWMutex @props C14
 
 //@ func Planner.Plan
 //@ props C08 C10 C07
